@@ -167,9 +167,8 @@ Definition sh_register (ids : list nat) (rid : option runner) (s : shared) : sha
   let s3 := fold_left (fun a i => add_hist i (status_code REGISTERED, ocode rid, now s) a) ids s2 in
   set_queue s3 (queue s3 ++ ids).
 
-(* operations that only touch the shared part; is_mem selects the one line where the two differ
-   (MemStateBackend.purge does not clear _workflow_data and _runner_contexts) *)
-Definition sh_step (is_mem : bool) (c : conf) (s : shared) (o : op) : option (shared * out) :=
+(* operations that only touch the shared part (both purges clear everything except the base class cache) *)
+Definition sh_step (c : conf) (s : shared) (o : op) : option (shared * out) :=
   match o with
   | Tick d => Some (set_now s (now s + Z.of_nat d)%Z, OOk)
   | Hb rs flag => Some (set_hbs s (fold_left (fun l r => hb_upsert (now s) flag r l) rs (hbs s)), OOk)
@@ -193,8 +192,8 @@ Definition sh_step (is_mem : bool) (c : conf) (s : shared) (o : op) : option (sh
   | SetWf k v => Some ({| now := now s; hbs := hbs s; queue := queue s; results := results s; excs := excs s;
                           wfd := aset k v (wfd s); hist := hist s; stored := stored s; rctx := rctx s; rcache := rcache s |}, OOk)
   | SBPurge => Some ({| now := now s; hbs := hbs s; queue := queue s; results := []; excs := [];
-                        wfd := if is_mem then wfd s else []; hist := []; stored := [];
-                        rctx := if is_mem then rctx s else []; rcache := rcache s |}, OOk)
+                        wfd := []; hist := []; stored := [];
+                        rctx := []; rcache := rcache s |}, OOk)
   | QRes i => Some (s, match aget i (results s) with Some v => ONat v | None => OErr 3 end)
   | QExc i => Some (s, match aget i (excs s) with Some v => ONat v | None => OErr 3 end)
   | QWf k => Some (s, OOpt (aget k (wfd s)))
